@@ -18,6 +18,17 @@ static long PAGE = 4096;
 static int g_out = -1;                // child: pipe to the parent
 static int g_batch = 4000;
 
+// Progress of the running child, mirrored into shared memory (no system call per read): the parent
+// learns from it which (input, configuration) was running when a child died.
+struct LShm {
+  volatile long long idx; volatile int cfg, in_flight;
+  volatile long long inputs, reads, complete, errors, refused, nested, alloc_ref;
+  volatile long long next; volatile int ended; volatile long long total, pruned;
+  volatile int mode, raw_len, has_replay;
+  char desc[600], ladder[80], key[700], replay[600], raw[1 << 15];
+};
+static LShm *g_shm = nullptr;
+
 enum { P_MEM = 0, P_FILE = 1 };
 enum { M_FULL = 0, M_LEX = 1, M_PAIR = 2, M_LADDER = 3, M_NAT = 4 };
 static const char *VNAME[] = {"natural", "page", "page-1", "page+1"};
@@ -84,13 +95,17 @@ static bool write_file(const std::string &bytes) {
   return true;
 }
 
-static bool cfg_enabled(int mode, int vi, int flags, int handler, int path) {
+static bool cfg_enabled(int mode, int fmt, int vi, int flags, int handler, int path) {
   switch (mode) {
-    case M_FULL: return true;
+    case M_FULL:
+      if (g_thorough || vi == 0) return true;
+      // quick: the padded sizes exercise how the buffer is obtained, which does not depend on the handler
+      if (fmt == SWAP && vi != 1) return false;
+      return handler == H_REC || (path == P_FILE && flags == 0);
     case M_NAT: return vi == 0;
     case M_LADDER: return vi == 0;
     case M_LEX: if (vi) return false; if (path == P_MEM) return handler == H_REC || flags == 0; return handler == H_REC && flags == 0;
-    case M_PAIR: if (vi) return false; if (path == P_MEM) return true; return handler == H_REC && flags == 0;
+    case M_PAIR: return vi == 0 && path == P_MEM && !(handler == H_NULL && flags == 1);
   }
   return false;
 }
@@ -104,16 +119,25 @@ struct ChildStats { long long reads = 0, complete = 0, errors = 0, refused = 0, 
 static std::set<std::string> g_sent_classes, g_sent_feats;
 static int g_samples_sent = 0;
 
-static void violation(const InputData &d, const std::string &sig, const std::string &detail) {
-  wr("V\t" + tabsafe(sig) + "\t{\"input\":" + jstr(d.desc) + ",\"detail\":" + jstr(detail) + "}\t" + d.replay);
+static std::string replay_of(const InputData &d) {
+  return d.replay.empty() ? "{\"hex\":\"" + hexs(d.bytes) + "\",\"mode\":" + std::to_string(d.mode) + "}" : d.replay;
 }
+static void violation(const InputData &d, const std::string &sig, const std::string &detail) {
+  wr("V\t" + tabsafe(sig) + "\t{\"input\":" + jstr(d.desc) + ",\"detail\":" + jstr(detail) + "}\t" + replay_of(d));
+}
+static void cpy(char *dst, size_t cap, const std::string &s) { size_t n = std::min(cap - 1, s.size()); std::memcpy(dst, s.data(), n); dst[n] = 0; }
 static void send_class(const std::string &c) { if (g_sent_classes.insert(c).second) wr("C\t" + tabsafe(c)); }
 static void send_feat(const std::string &f) { if (g_sent_feats.insert(f).second) wr("F\t" + tabsafe(f)); }
 
 // Runs every enabled configuration of one input (from start_cfg on; only that one if single).
 static void execute(long long idx, const InputData &d, int start_cfg, bool single, ChildStats &st) {
-  wr("I\t" + std::to_string(idx) + "\t" + tabsafe(d.desc) + "\t" + d.replay + "\t" +
-     (d.ladder.empty() ? std::string("-") : d.ladder + ":" + std::to_string(d.depth)) + "\t" + (d.key.empty() ? std::string("-") : d.key));
+  g_shm->idx = idx; g_shm->cfg = -1; g_shm->mode = d.mode;
+  cpy(g_shm->desc, sizeof g_shm->desc, d.desc); cpy(g_shm->key, sizeof g_shm->key, d.key.empty() ? "-" : d.key);
+  cpy(g_shm->ladder, sizeof g_shm->ladder, d.ladder.empty() ? std::string("-") : d.ladder + ":" + std::to_string(d.depth));
+  g_shm->has_replay = !d.replay.empty(); cpy(g_shm->replay, sizeof g_shm->replay, d.replay);
+  g_shm->raw_len = d.bytes.size() <= sizeof g_shm->raw ? (int)d.bytes.size() : -1;
+  if (g_shm->raw_len >= 0) std::memcpy(g_shm->raw, d.bytes.data(), d.bytes.size());
+  g_shm->in_flight = 1;
   alarm(single ? 120 : 10);
   const bool light = d.mode == M_LADDER && d.depth > 20000;
   std::string variants[4];
@@ -125,14 +149,14 @@ static void execute(long long idx, const InputData &d, int start_cfg, bool singl
     if (vi && variants[vi].empty()) continue;
     bool file_written = false;
     for (int flags = 0; flags < 2; ++flags) for (int handler = 0; handler < 3; ++handler) for (int path = 0; path < 2; ++path) {
-      if (!cfg_enabled(d.mode, vi, flags, handler, path)) continue;
+      if (!cfg_enabled(d.mode, d.fmt, vi, flags, handler, path)) continue;
       int c = cfg_index(vi, flags, handler, path);
       if (c < start_cfg || (single && c != start_cfg)) continue;
       if (path == P_FILE && !file_written) {
         if (!write_file(variants[vi])) { wr("B\tcannot write scratch file"); _exit(96); }
         file_written = true;
       }
-      wr("P\t" + std::to_string(idx) + "\t" + std::to_string(c));
+      g_shm->cfg = c;
       Res &r = R[c];
       r = run_one(variants[vi], handler, path, flags, light, d.is_base && c == 0);
       ++nrun; ++st.reads;
@@ -190,8 +214,11 @@ static void execute(long long idx, const InputData &d, int start_cfg, bool singl
   } else if (g_samples_sent < 3 && !d.is_base && d.bytes.size() < 400 && (idx % 977) == 0) {
     ++g_samples_sent; wr("M\t{\"input\":" + jstr(d.desc) + ",\"hex\":" + jstr(hexs(d.bytes)) + "}");
   }
-  wr("D\t" + std::to_string(idx) + "\t" + std::to_string(st.reads) + "\t" + std::to_string(st.complete) + "\t" + std::to_string(st.errors) +
-     "\t" + std::to_string(st.refused) + "\t" + std::to_string(st.nested) + "\t" + std::to_string(g_alloc_refusals));
+  g_shm->in_flight = 0;
+  if (!single) {
+    g_shm->inputs++; g_shm->reads += st.reads; g_shm->complete += st.complete; g_shm->errors += st.errors; g_shm->refused += st.refused;
+    g_shm->nested += st.nested; g_shm->alloc_ref += g_alloc_refusals;
+  }
   st = ChildStats(); g_alloc_refusals = 0; (void)nrun;
 }
 
@@ -214,9 +241,6 @@ struct Enum {
 };
 typedef Enum &Visitor;
 
-static std::string default_replay(const InputData &d) {
-  return "{\"hex\":\"" + hexs(d.bytes) + "\",\"mode\":" + std::to_string(d.mode) + "}";
-}
 
 static int g_stage = 1;                       // 1: deviations 0/1, lexer level, ladders; 2: pairs of deviations
 static std::set<std::string> g_prune;         // stage 2: single substitutions that already crash on their own
@@ -229,15 +253,15 @@ static void enumerate_bases(Visitor visit) {
     if (only && b.name != only) continue;
     for (int f = 0; f < 3; ++f) {
       if (f == SWAP && !b.has_arith) continue;
-      std::vector<std::vector<Alt>> A(b.t.size()), AR(b.t.size());
-      for (size_t i = 0; i < b.t.size(); ++i) { A[i] = alphabet(b.t[i], f, false); AR[i] = alphabet(b.t[i], f, true); }
+      std::vector<std::vector<Alt>> A(b.t.size()), AR(b.t.size()), AT(b.t.size());
+      for (size_t i = 0; i < b.t.size(); ++i) { A[i] = alphabet(b.t[i], f, 0); AR[i] = alphabet(b.t[i], f, 1); AT[i] = alphabet(b.t[i], f, 2); }
       std::string tag = b.name + "/" + fmt_name(f);
-      std::string basebytes = render(b, f, {}, A, AR, false);
+      std::string basebytes = render(b, f, {}, A);
       auto tokdesc = [&](int i, const std::vector<std::vector<Alt>> &al, int a) {
         return "tok" + std::to_string(i) + "(" + b.t[i].role + ")" + al[i][a].label;
       };
       int ns = (int)segments(b).size();
-      long long ntok = 0, ntokr = 0; for (size_t i = 0; i < b.t.size(); ++i) { ntok += (long long)A[i].size(); ntokr += (long long)AR[i].size(); }
+      long long ntok = 0; for (size_t i = 0; i < b.t.size(); ++i) ntok += (long long)A[i].size();
       if (g_stage == 1) {
       // deviation 0
       visit.family = "base";
@@ -248,7 +272,7 @@ static void enumerate_bases(Visitor visit) {
       if (!visit.skip(ntok))
       for (size_t i = 0; i < b.t.size(); ++i) for (size_t a = 0; a < A[i].size(); ++a)
         visit(M_FULL, [&](InputData &d) {
-          d.bytes = render(b, f, {{(int)i, (int)a}}, A, AR, false); d.desc = tag + " " + tokdesc((int)i, A, (int)a);
+          d.bytes = render(b, f, {{(int)i, (int)a}}, A); d.desc = tag + " " + tokdesc((int)i, A, (int)a);
           d.cls = std::string("L|") + fmt_name(f) + "|tok:" + (b.t[i].hdr ? "hdr" : b.t[i].role); d.base = &b; d.fmt = f;
           d.key = tag + "/" + std::to_string(i) + "/" + hexs(A[i][a].bytes); });
       // truncation at every byte offset
@@ -262,10 +286,10 @@ static void enumerate_bases(Visitor visit) {
       if (!visit.skip((long long)ns * (ns - 1) + 2 * ns))
       for (int i = 0; i < ns; ++i) {
         for (int j = 0; j < ns; ++j) if (j != i)
-          visit(M_FULL, [&](InputData &d) { SegOp op; op.k = SEG_MOVE; op.a = i; op.b = j; d.bytes = render(b, f, {}, A, AR, false, op);
+          visit(M_FULL, [&](InputData &d) { SegOp op; op.k = SEG_MOVE; op.a = i; op.b = j; d.bytes = render(b, f, {}, A, op);
             d.desc = tag + " seg" + std::to_string(i) + "->pos" + std::to_string(j); d.cls = std::string("L|") + fmt_name(f) + "|segmove"; d.base = &b; d.fmt = f; });
         for (int k : {SEG_DEL, SEG_DUP})
-          visit(M_FULL, [&](InputData &d) { SegOp op; op.k = k; op.a = i; d.bytes = render(b, f, {}, A, AR, false, op);
+          visit(M_FULL, [&](InputData &d) { SegOp op; op.k = k; op.a = i; d.bytes = render(b, f, {}, A, op);
             d.desc = tag + " seg" + std::to_string(i) + (k == SEG_DEL ? " deleted" : " duplicated");
             d.cls = std::string("L|") + fmt_name(f) + (k == SEG_DEL ? "|segdel" : "|segdup"); d.base = &b; d.fmt = f; });
       }
@@ -297,36 +321,40 @@ static void enumerate_bases(Visitor visit) {
         for (size_t a = 0; a < AR[i].size(); ++a) for (size_t c = 0; c < AR[j].size(); ++c)
           if (bad[i][a] || bad[j][c]) visit.pruned(); else
           visit(M_PAIR, [&](InputData &d) {
-            d.bytes = render(b, f, {{(int)i, (int)a}, {(int)j, (int)c}}, A, AR, true);
+            d.bytes = render(b, f, {{(int)i, (int)a}, {(int)j, (int)c}}, AR);
             d.desc = tag + " " + tokdesc((int)i, AR, (int)a) + " + " + tokdesc((int)j, AR, (int)c);
             d.cls = std::string("L|") + fmt_name(f) + "|tok+tok"; d.base = &b; d.fmt = f; });
-      // ... and one reduced-alphabet substitution followed by truncation at every offset
+      // ... one substitution (tiny alphabet: count/index pushed just past its bound, INT_MAX) followed by
+      // truncation at every later offset (shorter prefixes equal truncations of the base)
       visit.family = "tok+trunc";
-      // (only offsets behind the start of the substituted token: shorter prefixes equal truncations of the base)
+      std::vector<std::vector<char>> badt(b.t.size());
+      long long ntokt = 0;
+      for (size_t i = 0; i < b.t.size(); ++i) { badt[i].assign(AT[i].size(), 0); ntokt += (long long)AT[i].size();
+        for (size_t a = 0; a < AT[i].size(); ++a) badt[i][a] = g_prune.count(tag + "/" + std::to_string(i) + "/" + hexs(AT[i][a].bytes)) ? 1 : 0; }
       std::vector<size_t> tok_off(b.t.size() + 1, 0);
       for (size_t i = 0; i < b.t.size(); ++i) tok_off[i + 1] = tok_off[i] + render_tok(b.t[i], f).size();
       long long ntt = 0;
-      for (size_t i = 0; i < b.t.size(); ++i) for (size_t a = 0; a < AR[i].size(); ++a) {
-        size_t mbs = basebytes.size() - render_tok(b.t[i], f).size() + AR[i][a].bytes.size();
+      for (size_t i = 0; i < b.t.size(); ++i) for (size_t a = 0; a < AT[i].size(); ++a) {
+        size_t mbs = basebytes.size() - render_tok(b.t[i], f).size() + AT[i][a].bytes.size();
         if (mbs > tok_off[i] + 1) ntt += (long long)(mbs - tok_off[i] - 1);
       }
       if (!visit.skip(ntt))
-      for (size_t i = 0; i < b.t.size(); ++i) for (size_t a = 0; a < AR[i].size(); ++a) {
-        std::string mb = render(b, f, {{(int)i, (int)a}}, A, AR, true);
+      for (size_t i = 0; i < b.t.size(); ++i) for (size_t a = 0; a < AT[i].size(); ++a) {
+        std::string mb = render(b, f, {{(int)i, (int)a}}, AT);
         for (size_t n = tok_off[i] + 1; n < mb.size(); ++n)
-          if (bad[i][a]) visit.pruned(); else
-          visit(M_PAIR, [&](InputData &d) { d.bytes = mb.substr(0, n); d.desc = tag + " " + tokdesc((int)i, AR, (int)a) + " + trunc@" + std::to_string(n);
+          if (badt[i][a]) visit.pruned(); else
+          visit(M_PAIR, [&](InputData &d) { d.bytes = mb.substr(0, n); d.desc = tag + " " + tokdesc((int)i, AT, (int)a) + " + trunc@" + std::to_string(n);
                                             d.cls = std::string("L|") + fmt_name(f) + "|tok+trunc"; d.base = &b; d.fmt = f; });
       }
-      // ... and segment move + one reduced-alphabet substitution
+      // ... and segment move + one substitution (tiny alphabet)
       visit.family = "segmove+tok";
-      if (!visit.skip((long long)ns * (ns - 1) * ntokr))
+      if (!visit.skip((long long)ns * (ns - 1) * ntokt))
       for (int si = 0; si < ns; ++si) for (int sj = 0; sj < ns; ++sj) if (si != sj)
-        for (size_t i = 0; i < b.t.size(); ++i) for (size_t a = 0; a < AR[i].size(); ++a)
-          if (bad[i][a]) visit.pruned(); else
+        for (size_t i = 0; i < b.t.size(); ++i) for (size_t a = 0; a < AT[i].size(); ++a)
+          if (badt[i][a]) visit.pruned(); else
           visit(M_PAIR, [&](InputData &d) { SegOp op; op.k = SEG_MOVE; op.a = si; op.b = sj;
-            d.bytes = render(b, f, {{(int)i, (int)a}}, A, AR, true, op);
-            d.desc = tag + " seg" + std::to_string(si) + "->pos" + std::to_string(sj) + " + " + tokdesc((int)i, AR, (int)a);
+            d.bytes = render(b, f, {{(int)i, (int)a}}, AT, op);
+            d.desc = tag + " seg" + std::to_string(si) + "->pos" + std::to_string(sj) + " + " + tokdesc((int)i, AT, (int)a);
             d.cls = std::string("L|") + fmt_name(f) + "|segmove+tok"; d.base = &b; d.fmt = f; });
     }
   }
@@ -359,6 +387,8 @@ static void enumerate_lex(Visitor visit) {
   for (const Ctx &c : ctxs) {
     for (int rest = 0; rest < 2; ++rest) {
       for (int len = 0; len <= maxlen; ++len) {
+        // quick: length 4 only in the three richest lexer contexts, followed by a valid rest
+        if (len == 4 && !g_thorough && !(rest && (!strcmp(c.name, "expr-double") || !strcmp(c.name, "string") || !strcmp(c.name, "hdr-options")))) continue;
         long long n = 1; for (int i = 0; i < len; ++i) n *= NA;
         if (visit.skip(n)) continue;
         for (long long k = 0; k < n; ++k)
@@ -413,9 +443,8 @@ static void child_main(int out_fd, long long start_idx, int start_cfg, bool sing
   Enum en; en.start = start_idx;
   try {
     en.on = [&](long long my, int mode, const Maker &make) {
-      if (done >= g_batch && !single) { wr("N\t" + std::to_string(my)); throw Stop(); }
+      if (done >= g_batch && !single) { g_shm->next = my; throw Stop(); }
       InputData d; d.mode = mode; make(d);
-      if (d.replay.empty()) d.replay = default_replay(d);
       execute(my, d, my == start_idx ? start_cfg : 0, single, st);
       ++done;
       if (single) throw Stop();
@@ -423,7 +452,7 @@ static void child_main(int out_fd, long long start_idx, int start_cfg, bool sing
     enumerate_all(en);
     ended = true;
   } catch (const Stop &) {}
-  if (ended) wr("E\t" + std::to_string(en.idx) + "\t" + std::to_string(en.npruned));
+  if (ended) { g_shm->total = en.idx; g_shm->pruned = en.npruned; g_shm->ended = 1; }
   _exit(0);
 }
 
@@ -446,6 +475,7 @@ static ChildRun run_child(long long start_idx, int start_cfg, bool single) {
   ChildRun cr;
   int fds[2]; if (pipe(fds) != 0) { R.broken("pipe failed"); R.done(); exit(0); }
   fflush(stdout);
+  g_shm->in_flight = 0; g_shm->idx = -1; g_shm->cfg = -1; g_shm->next = -1; g_shm->ended = 0;
   pid_t pid = fork();
   if (pid == 0) {
     ::close(fds[0]);
@@ -470,30 +500,32 @@ static ChildRun run_child(long long start_idx, int start_cfg, bool single) {
     line[n - 1] = 0;
     std::vector<std::string> f; { char *p = line; for (;;) { char *t = strchr(p, '\t'); if (!t) { f.push_back(p); break; } f.emplace_back(p, t - p); p = t + 1; } }
     const std::string &t = f[0];
-    if (t == "P" && f.size() >= 3) { cr.last_idx = atoll(f[1].c_str()); cr.last_cfg = atoi(f[2].c_str()); cr.in_flight = true; }
-    else if (t == "I" && f.size() >= 5) { cr.last_idx = atoll(f[1].c_str()); cr.last_cfg = -1; cr.in_flight = true; cr.desc = f[2]; cr.replay = f[3]; cr.ladder = f[4]; cr.key = f.size() > 5 ? f[5] : "-"; }
-    else if (t == "D") {
-      cr.in_flight = false;
-      if (!single && f.size() >= 8) {
-        R.stats["inputs"]++;
-        R.stats["reads"] += atoll(f[2].c_str()); R.stats["reads_complete"] += atoll(f[3].c_str());
-        R.stats["reads_error"] += atoll(f[4].c_str()); R.stats["reads_refused"] += atoll(f[5].c_str());
-        R.stats["reads_with_nested_begin_end"] += atoll(f[6].c_str()); R.stats["allocation_refusals_bad_alloc"] += atoll(f[7].c_str());
-      }
-    }
+    if (false) {}
     else if (t == "V" && f.size() >= 4) R.violation(f[1], f[2], f[3]);
     else if (t == "C" && f.size() >= 2) R.classes.insert(f[1]);
     else if (t == "F" && f.size() >= 2) g_feats.insert(f[1]);
     else if (t == "G" && f.size() >= 2) g_good_bases.insert(f[1]);
     else if (t == "M" && f.size() >= 2) R.sample(f[1]);
     else if (t == "B" && f.size() >= 2) R.broken(f[1]);
-    else if (t == "N" && f.size() >= 2) cr.next = atoll(f[1].c_str());
-    else if (t == "E" && f.size() >= 3) { cr.ended = true; cr.total = atoll(f[1].c_str()); cr.pruned = atoll(f[2].c_str()); }
   }
   free(line); fclose(in);
   int status = 0; while (waitpid(pid, &status, 0) < 0 && errno == EINTR) {}
   cr.status = status;
+  if (!single) {
+    cr.in_flight = g_shm->in_flight; cr.last_idx = g_shm->idx; cr.last_cfg = g_shm->cfg; cr.next = g_shm->next;
+    cr.ended = g_shm->ended; cr.total = g_shm->total; cr.pruned = g_shm->pruned;
+    cr.desc = (const char *)g_shm->desc; cr.ladder = (const char *)g_shm->ladder; cr.key = (const char *)g_shm->key;
+    if (g_shm->has_replay) cr.replay = (const char *)g_shm->replay;
+    else if (g_shm->raw_len >= 0) cr.replay = "{\"hex\":\"" + hexs(std::string((const char *)g_shm->raw, g_shm->raw_len)) + "\",\"mode\":" + std::to_string(g_shm->mode) + "}";
+    else cr.replay = "null";
+  }
   return cr;
+}
+
+static void flush_counters() {
+  R.stats["inputs"] = g_shm->inputs; R.stats["reads"] = g_shm->reads; R.stats["reads_complete"] = g_shm->complete;
+  R.stats["reads_error"] = g_shm->errors; R.stats["reads_refused"] = g_shm->refused;
+  R.stats["reads_with_nested_begin_end"] = g_shm->nested; R.stats["allocation_refusals_bad_alloc"] = g_shm->alloc_ref;
 }
 
 static std::map<std::string, Crash> g_confirmed;   // crash key -> symbolised classification
@@ -578,6 +610,9 @@ int main(int argc, char **argv) {
   if (const char *b = vx::arg_value(argc, argv, "--batch")) g_batch = atoi(b);
   if (const char *r = vx::arg_value(argc, argv, "--repo")) g_repo = r;
   g_stage = atoi(vx::arg_value(argc, argv, "--stage", "1"));
+  g_shm = (LShm *)mmap(nullptr, sizeof(LShm), PROT_READ | PROT_WRITE, MAP_SHARED | MAP_ANONYMOUS, -1, 0);
+  if (g_shm == MAP_FAILED) { R.broken("mmap failed"); R.done(); return 0; }
+  std::memset((void *)g_shm, 0, sizeof(LShm));
   if (const char *pf = vx::arg_value(argc, argv, "--prune-file")) {
     FILE *f = fopen(pf, "r"); char buf[4096];
     if (f) { while (fgets(buf, sizeof buf, f)) { std::string k = buf; while (!k.empty() && (k.back() == '\n' || k.back() == '\r')) k.pop_back(); if (!k.empty()) g_prune.insert(k); } fclose(f); }
@@ -593,7 +628,7 @@ int main(int argc, char **argv) {
   if (vx::has_flag(argc, argv, "--bench")) {   // debugging aid: cost of one read per handler / path
     if (chdir(g_work.c_str()) != 0) return 1;
     Base b = make_bases()[1]; std::vector<std::vector<Alt>> A(b.t.size());
-    std::string good = render(b, TEXT, {}, A, A, false), bad = good.substr(0, good.size() / 2);
+    std::string good = render(b, TEXT, {}, A), bad = good.substr(0, good.size() / 2);
     write_file(good);
     for (int h = 0; h < 3; ++h) for (int path = 0; path < 2; ++path) for (int e = 0; e < 2; ++e) {
       if (path == 1 && e == 1) continue;
@@ -613,7 +648,7 @@ int main(int argc, char **argv) {
   if (vx::has_flag(argc, argv, "--dump-bases")) {   // debugging aid: print the text form of every base
     for (const Base &b : make_bases()) {
       std::vector<std::vector<Alt>> A(b.t.size());
-      printf("=== %s\n%s", b.name.c_str(), render(b, TEXT, {}, A, A, false).c_str());
+      printf("=== %s\n%s", b.name.c_str(), render(b, TEXT, {}, A).c_str());
     }
     return 0;
   }
@@ -625,6 +660,7 @@ int main(int argc, char **argv) {
     R.stats["base_files"] = (long long)make_bases().size();
   }
   run_all();
+  flush_counters();
   for (auto &f : g_feats) printf("{\"type\":\"feature\",\"v\":\"%s\"}\n", vx::jesc(f).c_str());
   for (auto &b : g_good_bases) printf("{\"type\":\"good_base\",\"v\":\"%s\"}\n", vx::jesc(b).c_str());
   R.done();
